@@ -10,6 +10,7 @@ INST = {
     "I2": ("s3", [1]),
     "I3": ("w3", [1]),
     "I4": ("s2", [1]),      # same service id as I1, other instance: one wildcard find matches both
+    "I5": ("s5", [1]),      # same service id AND instance id as I1, other major version
 }
 SUBSVC = ["s1", "s2", "s3", "s4"]
 
